@@ -6,6 +6,7 @@
 
 mod campaign;
 mod clocksim;
+mod histsim;
 mod host;
 mod known;
 #[cfg(feature = "arc")]
@@ -166,6 +167,7 @@ fn replay_doc(doc: &Value) -> (Option<(String, String)>, u64) {
             let (v, d) = unwindsim::replay(doc);
             (v.map(|v| (v.class, v.detail)), d)
         }
+        "histsim" => histsim::replay(doc),
         other => {
             eprintln!("unknown engine in replay file (or not built into this binary): {other}");
             std::process::exit(2);
@@ -290,6 +292,45 @@ fn main() {
                 components(),
                 vec![
                     "the reference model implements the documented unwinding semantics; its agreement with koto on error-free executions is re-checked on every run (disagreement there is a harness error, exit 2)".into(),
+                ],
+                extra,
+            );
+            finish(&cfg, &res, ev, &args.evidence);
+        }
+        "histsim-show" => {
+            histsim::show(args.rest[0].parse().expect("run seed"));
+        }
+        "histsim" => {
+            let cfg = CampaignConfig {
+                engine: "histsim",
+                property: "C07",
+                base_seed: args.seed,
+                runs: args.runs.unwrap_or(if quick { 40_000 } else { 4_000_000 }),
+                max_seconds: args.seconds.unwrap_or(if quick { 60.0 } else { 900.0 }),
+                threads: args.threads,
+                keep_going: args.keep_going,
+                digest_file: args.digests.clone(),
+                replay_dir: args.replay_dir.clone(),
+            };
+            report_known_findings("histsim", "C07", &known);
+            let (regress_n, regress_v) = run_regressions("histsim", "C07", &args.regress_dir);
+            let mut res = campaign::run_campaign(&cfg, |_t| {
+                Box::new(histsim::HistWorker::new(known.clone())) as Box<dyn Worker>
+            });
+            res.violations.extend(regress_v);
+            let mut extra = Map::new();
+            extra.insert("regression_replays".into(), json!(regress_n));
+            let ev = campaign::evidence_part(
+                &cfg,
+                &res,
+                &args.tier,
+                "exploration",
+                "one run = one seeded history of 3-10 host operations (plus up to 110 consecutive failing calls in 4% of runs) on ONE runtime instance: compile_and_run of generated SimLang programs, call_exported_function with right/too few/too many arguments, on non-callables and missing names, value_to_string through @display, compile errors, failing imports (top level / @test / @main / cycle / syntax / missing), runaway scripts stopped by the execution limit; faults are injected at seeded dynamic fault points inside operations; evaluations = host operations executed; non-trivial = at least one operation failed; distinct = distinct sets of (failed operation kind, next operation kind, next outcome) per history",
+                "VM instructions",
+                components(),
+                vec![
+                    "oracle A: SimLang reference model (as C04); oracle B: 8 probe scripts vs a brand-new instance; oracle C: hook H3 (sizes of the VM's stacks)".into(),
+                    "child VMs owned by iterators/generators are not inspected by H3".into(),
                 ],
                 extra,
             );
